@@ -223,151 +223,196 @@ def run(run):
                         todo.append(tgt)
         return needs
 
+    COMPUTE = ("compute_function_signatures", "compute_pointer_inference", "compute_string_abstraction")
+    NEED2COMP = {"function_signatures": "compute_function_signatures", "pointer_inference": "compute_pointer_inference", "string_abstraction": "compute_string_abstraction"}
+
+    def module_list_ids():
+        return {s_["p"]["id"] for s_ in T.walk(main["body"]) if s_.get("k") == "LetStmt" and "i" in s_ and s_["p"].get("k") == "Bind" and any(T.is_call(x, "get_modules") for x in T.walk(s_["i"]))}
+
+    def selection_scenario(name):
+        """nodes of run_with_ghidra that can run when exactly the check `name` is selected: every `modules.iter().any(pred)` /
+        `.all(pred)` is decided by evaluating pred for that name (lib/strpred); closures of `cond.then(|| ..)` are entered"""
+        from .lib import peval as PE
+        from .lib import strpred as SP
+        mods = module_list_ids()
+        sp = SP.StrPred([C, F])
+        env0 = {}
+        for x in T.walk(main["body"]):
+            if x.get("k") == "LetStmt" and "i" in x and x["p"].get("k") == "Bind":
+                v = sp.ev(x["i"], env0)
+                if v is not None:
+                    env0[x["p"]["id"]] = v
+        hits = {"decided": 0, "open": 0}
+
+        def assume(n):
+            def recv_root(e):
+                e = T.peel(e)
+                while e.get("k") == "Call" and e.get("n") in ("iter", "into_iter", "iter_mut", "copied", "cloned") and e.get("a"):
+                    e = T.peel(e["a"][0])
+                return T.root_var_id(e)
+            if n.get("k") == "Call" and n.get("n") in ("any", "all") and len(n.get("a", [])) == 2 and recv_root(n["a"][0]) in mods:
+                cl = T.peel(n["a"][1])
+                c = C.by_path.get(cl.get("d")) if cl.get("k") == "Closure" else None
+                bp = SP.closure_param(c) if c is not None else None
+                if bp is not None:
+                    e1 = dict(env0)
+                    for pid, anode in list(spec.arg_nodes.items()):
+                        v_ = sp.ev(anode, env0)
+                        if v_ is not None:
+                            e1[pid] = v_
+                    e1[bp["id"]] = ("struct", {"name": name})
+                    r = sp.ev(c["body"], e1)
+                    if r is not None:
+                        hits["decided"] += 1
+                        return ("bool", r)
+                hits["open"] += 1
+            return None
+        from .lib import bindsrc as B
+        spec = PE.Spec(C, assume=assume, enter_closures=True, follow_calls=True, scope=B.bodies(C, main))
+        nodes = spec.reach(main["body"], {})
+        return nodes, hits
+
     def r2():
-        tables = {}
-        for x in S.subterms(mt):
-            if isinstance(x, tuple) and x and x[0] == "letstmt":
-                pass
-        for n in T.walk(main["body"]):
-            if n.get("k") == "LetStmt" and "i" in n:
-                name = T.show_pat(n["p"])
-                if name in ("modules_depending_on_string_abstraction", "modules_depending_on_pointer_inference"):
-                    t = sy.ev(n["i"], env)
-                    tables[name] = {x[1] for x in S.subterms(t) if isinstance(x, tuple) and x and x[0] == "lit" and isinstance(x[1], str)}
-        if len(tables) != 2:
-            raise T.AnchorMissing("prerequisite tables not found in run_with_ghidra")
-        pi_tab = tables["modules_depending_on_pointer_inference"]
-        sa_tab = tables["modules_depending_on_string_abstraction"]
+        from .lib import bindsrc as B
+        scen = {}
         for p, e in sorted(statics.items()):
             if not e.get("run"):
                 continue
-            needs = needs_of(None, e["run"])
             name = e["name"]
-            # string abstraction implies pointer inference in run_with_ghidra (pi_analysis_needed = sa_needed || ...)
+            needs = needs_of(None, e["run"])
+            nodes, hits = selection_scenario(name)
+            reached = [x["n"] for x in nodes if T.is_call(x, COMPUTE)]
+            scen[name] = (reached, hits)
             for what, site in sorted(needs.items()):
-                if what in ("pointer_inference", "function_signatures"):
-                    ok = name in pi_tab or name in sa_tab
-                    run.check("R2", "%s|needs|%s" % (name, what), ok, "check %s unwraps AnalysisResults.%s (at %s) but is not listed in the tables that make run_with_ghidra compute it: a run selecting only this check panics" % (name, what, site), msite)
-                elif what == "string_abstraction":
-                    run.check("R2", "%s|needs|%s" % (name, what), name in sa_tab, "check %s unwraps AnalysisResults.string_abstraction (at %s) but is not listed in modules_depending_on_string_abstraction" % (name, site), msite)
-        # dependency order of the analyses
-        order = []
-        for st in stmts:
-            for x in S.subterms(st):
-                if is_call(x, ("compute_function_signatures", "compute_pointer_inference", "compute_string_abstraction")) and x[1] not in order:
-                    order.append(x[1])
-            # only first occurrence by top-level statement matters
-        # the first statement in which each compute_* appears
-        first = {}
-        for i, st in enumerate(stmts):
-            for x in S.subterms(st):
-                if is_call(x, ("compute_function_signatures", "compute_pointer_inference", "compute_string_abstraction")):
-                    # a let-inlined earlier result also appears inside later terms; the defining statement is the first
-                    first.setdefault(x[1], i)
-        want = ["compute_function_signatures", "compute_pointer_inference", "compute_string_abstraction"]
-        have = sorted(first, key=lambda k: first[k])
-        run.check("R2", "analysis-order", have == want, "function signatures must be computed before pointer inference and pointer inference before string abstraction; order is %s" % have, msite)
-        # prerequisites between the analyses themselves: string abstraction consumes (and unwraps) the pointer-inference result and
-        # pointer inference the function signatures, so "B is computed" must imply "A is computed"
-        from .lib import numflow as NF
-        flow = NF.Flow(C, main)
-
-        def guard_disjuncts(node, depth=0):
-            """atoms of a guard: variable ids and opaque expression texts, through immutable lets and `||`"""
-            n = T.peel(node)
-            if n.get("k") in ("Var", "Upvar"):
-                d = flow.definition(n)
-                if d is not n and d.get("k") != n.get("k") and depth < 6:
-                    return {("var", n["id"])} | guard_disjuncts(d, depth + 1)
-                return {("var", n["id"])}
-            if n.get("k") == "Logical" and n.get("o") == "Or":
-                return guard_disjuncts(n["l"], depth + 1) | guard_disjuncts(n["r"], depth + 1)
-            # `modules.iter().any(|m| TABLE.contains(&m.name))` or a helper closure applied to &TABLE: the table decides
-            names = set()
-            for y in T.walk(n):
-                if y.get("k") in ("Var", "Upvar") and y.get("n") in tables:
-                    names.add(y["n"])
-                if y.get("k") == "Closure":
-                    try:
-                        for z in T.walk(C.closure_by_path(y["d"])["body"]):
-                            if z.get("k") in ("Var", "Upvar") and z.get("n") in tables:
-                                names.add(z["n"])
-                    except T.AnchorMissing:
-                        pass
-            if len(names) == 1 and any(T.is_call(y, ("any", "contains")) or y.get("k") == "Call" for y in T.walk(n)):
-                return {("table", list(names)[0])}
-            return {("expr", id(n))}
-        guards = {}
-        for name in ("compute_function_signatures", "compute_pointer_inference", "compute_string_abstraction"):
-            for x, conds in T.paths_to(main["body"], lambda y: T.is_call(y, name)):
-                ifs = [c for c in conds if c[0] == "if" and c[2] is True]
-                # innermost guard decides whether the analysis runs
-                guards[name] = ifs[-1][1] if ifs else None
-                break
-        for a_fn, b_fn, why in (("compute_pointer_inference", "compute_string_abstraction", "compute_string_abstraction unwraps the pointer-inference result it is given"),
-                                ("compute_function_signatures", "compute_pointer_inference", "the pointer inference reads the function signatures")):
-            key = "implies|%s=>%s" % (b_fn.replace("compute_", ""), a_fn.replace("compute_", ""))
-            if a_fn not in guards or b_fn not in guards:
-                run.undecided("R2", key, "call not found", msite)
-                continue
-            ga, gb = guards[a_fn], guards[b_fn]
-            if ga is None:
-                run.holds("R2", key, "%s is computed unconditionally" % a_fn, msite)
-                continue
-            if gb is None:
-                run.violated("R2", key, "%s always runs but %s only under a condition (%s)" % (b_fn, a_fn, why), msite)
-                continue
-            da, db = guard_disjuncts(ga), guard_disjuncts(gb)
-            top_b = {d for d in db if d[0] == "var"} or db
-            ta = set().union(*[tables[d[1]] for d in da if d[0] == "table"]) if any(d[0] == "table" for d in da) else set()
-            tb_atoms = [d for d in db if d[0] == "table"]
-            tables_imply = bool(tb_atoms) and all(tables[d[1]] <= ta for d in tb_atoms) and not any(d[0] == "expr" for d in db)
-            if top_b & da or tables_imply:
-                run.holds("R2", key, "", msite)
-            elif not any(d[0] == "expr" for d in da | db):
-                run.violated("R2", key, "%s runs when `%s` holds, %s only when `%s` holds, and the second condition does not contain the first: a selection that needs only %s makes the run panic (%s)" % (b_fn, T.show(gb)[:60], a_fn, T.show(ga)[:60], b_fn.replace("compute_", ""), why), C.loc(ga))
+                comp = NEED2COMP[what]
+                key = "%s|needs|%s" % (name, what)
+                run.check("R2", key, comp in reached, "check %s unwraps AnalysisResults.%s (at %s) but a run that selects only this check does not compute it (%s is not reached in run_with_ghidra for this selection): the run panics" % (name, what, site, comp), msite)
+        if not scen:
+            raise T.AnchorMissing("no check module with a run function")
+        decided = sum(h["decided"] for r_, h in scen.values())
+        # dependency order of the analyses, and prerequisites between the analyses themselves: string abstraction consumes (and
+        # unwraps) the pointer-inference result and pointer inference the function signatures
+        bad_order, bad_imp = [], {("compute_string_abstraction", "compute_pointer_inference"): [], ("compute_pointer_inference", "compute_function_signatures"): []}
+        seen_all = set()
+        for name, (reached, hits) in sorted(scen.items()):
+            seen_all |= set(reached)
+            firsts = []
+            for r_ in reached:
+                if r_ not in firsts:
+                    firsts.append(r_)
+            want = [c for c in COMPUTE if c in firsts]
+            if firsts != want:
+                bad_order.append((name, firsts))
+            for (b_, a_) in bad_imp:
+                if b_ in reached and a_ not in reached:
+                    bad_imp[(b_, a_)].append(name)
+        if not set(COMPUTE) <= seen_all:
+            run.undecided("R2", "analysis-order", "not every analysis is reached for some selection: %s" % sorted(seen_all), msite)
+        else:
+            run.check("R2", "analysis-order", not bad_order, "function signatures must be computed before pointer inference and pointer inference before string abstraction; order for a run selecting %s is %s" % (bad_order[0] if bad_order else ("", "")), msite)
+        whys = {("compute_string_abstraction", "compute_pointer_inference"): "compute_string_abstraction unwraps the pointer-inference result it is given",
+                ("compute_pointer_inference", "compute_function_signatures"): "the pointer inference reads the function signatures"}
+        for (b_, a_), names in bad_imp.items():
+            key = "implies|%s=>%s" % (b_.replace("compute_", ""), a_.replace("compute_", ""))
+            if not decided:
+                run.undecided("R2", key, "the selection predicates of run_with_ghidra were not evaluated", msite)
             else:
-                run.undecided("R2", key, "guards %s / %s" % (T.show(ga)[:50], T.show(gb)[:50]), msite)
+                run.check("R2", key, not names, "a run that selects only %s computes %s but not %s: the run panics (%s)" % (names[:3], b_.replace("compute_", ""), a_.replace("compute_", ""), whys[(b_, a_)]), msite)
         # each result is attached with the matching with_* call using the matching result
+        roots = B.bodies(C, main)
         for comp, wit in (("compute_function_signatures", "with_function_signatures"), ("compute_pointer_inference", "with_pointer_inference"), ("compute_string_abstraction", "with_string_abstraction")):
-            ws = [x for x in S.subterms(mt) if is_call(x, wit)]
-            ok = bool(ws) and all(any(is_call(y, comp) for y in S.subterms(w[2][1])) for w in ws if len(w[2]) > 1)
+            ws = [x for x in T.walk_fn(C, main) if T.is_call(x, wit)]
+            ok = bool(ws) and all(any(T.is_call(y, comp) for src, how in B.sources(C, roots, w["a"][1]) for y in B.walk_with_closures(C, src)) for w in ws if len(w["a"]) > 1)
             run.check("R2", "attached|%s" % wit, ok, "%s must attach the result of %s" % (wit, comp), msite)
 
     run.guarded("R2", r2)
 
     def r3():
-        def mentions(st, var):
-            return any(isinstance(x, tuple) and x and x[0] == "var" and x[1] == var for x in S.subterms(st))
+        from .lib import peval as PE
+        from .lib import bindsrc as B
+        from .lib import mayflow as MF
+        body = main["body"]
+        prints = T.paths_to(body, lambda y: T.is_call(y, "print_all_messages"))
+        if len(prints) != 1:
+            raise T.AnchorMissing("print_all_messages is not called exactly once in run_with_ghidra")
+        pc, pconds = prints[0]
+        cw = T.root_var_id(pc["a"][1]) if len(pc["a"]) > 1 else None
+        order = [x for x in T.walk(body)]
+        pos = {id(x): i for i, x in enumerate(order)}
+        sorts = [(x, c) for x, c in T.paths_to(body, lambda y: T.is_call(y, ("sort", "sort_unstable", "sort_by", "sort_by_key", "sort_unstable_by", "sort_unstable_by_key")) and y.get("a") and T.root_var_id(y["a"][0]) == cw)]
+        def cond_keys(c):
+            return {(cd[0], id(cd[1]), id(cd[2]) if cd[0] == "arm" else cd[2]) for cd in c}
+        # unconditional relative to the print: every condition under which the sort runs also holds when the print runs
+        plain = [x for x, c in sorts if x["n"] in ("sort", "sort_unstable") and cond_keys(c) <= cond_keys(pconds)]
+        run.check("R3", "sorted-before-print", cw is not None and bool(plain) and pos[id(plain[-1])] < pos[id(pc)], "the collected warnings must be sorted unconditionally (total order of CweWarning) before they are printed", msite)
+        apps = [x for x in T.walk_fn(C, main) if T.is_call(x, ("append", "push", "extend", "insert", "extend_from_slice")) and x.get("a") and T.root_var_id(x["a"][0]) == cw]
+        if plain and apps:
+            late = [x for x in apps if id(x) in pos and pos[id(x)] > pos[id(plain[-1])]]
+            run.check("R3", "nothing-appended-after-sort", not late, "warnings are appended after the sort", msite)
+        run.check("R3", "print-gets-all-warnings", cw is not None and T.peel(pc["a"][1]).get("k") in ("Var", "Upvar"), "print_all_messages must receive the sorted warning vector itself; found %s" % T.show(pc["a"][1], C)[:100], msite)
+        if plain:
+            bad = [x for x in order if T.is_call(x, ("retain", "truncate", "clear", "dedup", "dedup_by_key", "dedup_by", "pop", "remove", "drain", "reverse", "swap_remove", "split_off")) and x.get("a") and T.root_var_id(x["a"][0]) == cw and pos[id(plain[-1])] < pos[id(x)] < pos[id(pc)]]
+            run.check("R3", "warnings-untouched-between-sort-and-print", not bad, "the warning list is modified between sorting and printing", msite)
+        # --quiet: the log list handed to print_all_messages is empty
+        hits = {"quiet": 0}
 
-        idx_sort = [i for i, st in enumerate(stmts) if any(is_call(x, ("sort", "sort_unstable", "sort_by", "sort_by_key")) and x[2] and x[2][0][0] == "var" and x[2][0][1] == "all_cwes" for x in S.subterms(st))]
-        idx_print = [i for i, st in enumerate(stmts) if any(is_call(x, "print_all_messages") for x in S.subterms(st))]
-        idx_app = [i for i, st in enumerate(stmts) if any(is_call(x, ("append", "push", "extend", "insert")) and x[2] and x[2][0][0] == "var" and x[2][0][1] == "all_cwes" for x in S.subterms(st))]
-        if not idx_print:
-            raise T.AnchorMissing("print_all_messages is not called at the top level of run_with_ghidra")
-        top_level_sort = bool(idx_sort) and stmts[idx_sort[0]][0] == "call"
-        run.check("R3", "sorted-before-print", top_level_sort and idx_sort[0] < idx_print[0], "the collected warnings must be sorted unconditionally before they are printed", msite)
-        if idx_sort and idx_app:
-            run.check("R3", "nothing-appended-after-sort", max(idx_app) < idx_sort[-1], "warnings are appended after the sort", msite)
-        # print receives all_cwes unchanged
-        pc = [x for x in S.subterms(stmts[idx_print[0]]) if is_call(x, "print_all_messages")][0]
-        run.check("R3", "print-gets-all-warnings", len(pc[2]) >= 2 and pc[2][1][0] == "var" and pc[2][1][1] == "all_cwes" and pc[2][0][0] == "var" and pc[2][0][1] == "all_logs", "print_all_messages must receive (all_logs, all_cwes, ..); found %s" % fmt(pc)[:120], msite)
-        between = [st for st in stmts[(idx_sort[-1] + 1 if idx_sort else 0):idx_print[0]]]
-        bad = [st for st in between if any(is_call(x, ("retain", "truncate", "clear", "dedup", "dedup_by_key", "pop", "remove", "drain", "reverse")) and x[2] and x[2][0][0] == "var" and x[2][0][1] == "all_cwes" for x in S.subterms(st))]
-        run.check("R3", "warnings-untouched-between-sort-and-print", not bad, "the warning list is modified between sorting and printing", msite)
-        # quiet
-        q = [st for st in stmts if st[0] == "ite" and st[1][0] == "field" and st[1][2] == "quiet"]
-        ok = bool(q) and any(isinstance(x, tuple) and x and x[0] == "assign" and x[1][0] == "var" and x[1][1] == "all_logs" and is_call(x[2], ("new", "default")) for x in S.subterms(q[0][2]))
-        run.check("R3", "quiet-empties-logs", ok, "--quiet must discard all log messages before printing", msite)
-        # print_all_messages: json branch serialises `cwes`
+        def assume_q(n):
+            if n.get("k") == "Field" and n.get("fn") == "quiet":
+                hits["quiet"] += 1
+                return ("bool", True)
+            return None
+        spec = PE.Spec(C, assume=assume_q, follow_calls=True)
+        nodes = spec.reach(body, {})
+        a0 = T.peel(pc["a"][0])
+        if a0.get("k") in ("Var", "Upvar"):
+            src, how = B.binder(body, a0["id"])
+            sp_ = T.peel(src) if src is not None else {}
+            g_ = (C.by_path.get(sp_.get("r") or "") or C.by_path.get(sp_.get("f") or "")) if sp_.get("k") == "Call" else None
+            if g_ is not None and g_.get("dk") in ("Fn", "AssocFn") and T.pat_peel({"k": "x"}) is not None:
+                a0 = sp_
+
+        def is_empty_vec(e):
+            e = T.peel(e)
+            return (T.is_call(e, ("new", "default", "with_capacity")) and "Vec" in (C.ty(e) or "")) or (e.get("k") == "Call" and e.get("n") == "into_vec" and False)
+        emptied = None
+        if a0.get("k") in ("Var", "Upvar"):
+            lid = a0["id"]
+            emptied = any((x.get("k") == "Assign" and T.root_var_id(x["l"]) == lid and is_empty_vec(x["r"])) or (T.is_call(x, ("clear",)) and x.get("a") and T.root_var_id(x["a"][0]) == lid) for x in nodes)
+        elif a0.get("k") == "Call":
+            g = C.by_path.get(a0.get("r") or "") or C.by_path.get(a0.get("f") or "")
+            if g is not None and g.get("dk") in ("Fn", "AssocFn"):
+                res, _n = PE.Spec(C, assume=assume_q, follow_calls=True).results(g["body"], {})
+                emptied = bool(res) and all(is_empty_vec(r) for r in res)
+        if emptied:
+            run.holds("R3", "quiet-empties-logs", "", msite)
+        elif not hits["quiet"]:
+            run.violated("R3", "quiet-empties-logs", "--quiet must discard all log messages before printing; args.quiet is not consulted in run_with_ghidra or its helpers", msite)
+        elif emptied is False and a0.get("k") in ("Var", "Upvar"):
+            run.violated("R3", "quiet-empties-logs", "--quiet must discard all log messages before printing; with --quiet the log list handed to print_all_messages is not emptied", msite)
+        else:
+            run.undecided("R3", "quiet-empties-logs", "the log argument %s is not traced" % T.show(pc["a"][0], C)[:80], msite)
+        # print_all_messages: with emit_json the whole `cwes` vector is serialised
         p = F.fn("print_all_messages", mod="utils::log")
-        pt = S.Sym(F).term(p["body"])
-        good = False
-        for x in S.subterms(pt):
-            if isinstance(x, tuple) and x and x[0] == "ite" and x[1][0] == "var" and x[1][1] == "emit_json":
-                ser = [y for y in S.subterms(x[2]) if is_call(y, ("to_string_pretty", "to_string", "to_vec", "to_writer", "to_writer_pretty"))]
-                good = bool(ser) and ser[0][2][0][0] == "var" and ser[0][2][0][1] == "cwes"
-        run.check("R3", "json-serialises-whole-vector", good, "with --json the output must be the serialisation of the complete warning vector", F.loc(p["body"]))
+        ps = {b[1]: b[0] for p_ in p["params"] if p_.get("p") for b in T.pat_bindings(p_["p"])}
+        jid = ps.get("emit_json")
+        cid = ps.get("cwes")
+        if jid is None or cid is None:
+            bools = [b[0] for p_ in p["params"] if p_.get("p") for b in T.pat_bindings(p_["p"]) if C.types and F.tyi(p_["p"]["t"]) == "bool"]
+            vecs = [b[0] for p_ in p["params"] if p_.get("p") for b in T.pat_bindings(p_["p"]) if "CweWarning" in F.tyi(p_["p"]["t"])]
+            jid, cid = (bools[0] if bools else None), (vecs[0] if vecs else None)
+        SER = ("to_string_pretty", "to_string", "to_vec", "to_writer", "to_writer_pretty", "to_vec_pretty")
+        nodes_j = PE.Spec(F, follow_calls=True, enter_closures=True).reach(p["body"], {jid: ("bool", True)}) if jid is not None else []
+        sers = [x for x in nodes_j if T.is_call(x, SER) and "serde_json" in (x.get("f") or "")]
+        mf = MF.MayFlow(F)
+        mf.run(p, {cid} if cid is not None else set())
+        flows = [x for x in sers if any(mf.mentions(a, mf.reached.get(gp, set())) for gp in mf.reached for a in x.get("a", []))]
+        cut = [x["n"] for gp, b_, x in mf.uses(lambda y: y.get("n") in ("filter", "take", "skip", "step_by", "take_while", "skip_while", "filter_map", "truncate", "retain", "dedup", "first", "last", "nth", "index", "get", "split_at", "split_first", "split_last", "chunks"))]
+        if jid is None or cid is None:
+            run.undecided("R3", "json-serialises-whole-vector", "parameters of print_all_messages not recognised", F.loc(p["body"]))
+        elif not sers:
+            run.violated("R3", "json-serialises-whole-vector", "with --json the output must be the serialisation of the complete warning vector; no serde_json serialiser is reached when emit_json is set", F.loc(p["body"]))
+        else:
+            run.check("R3", "json-serialises-whole-vector", bool(flows) and not cut, "with --json the output must be the serialisation of the complete warning vector (serialiser fed from the warnings: %s, restricting operations on them: %s)" % (bool(flows), cut), F.loc(p["body"]))
 
     run.guarded("R3", r3)
 
